@@ -89,8 +89,9 @@ func checkC07(c *Ctx) {
 	c.Rule("R7.6", "lazy With: fields evaluated exactly once, before every delegation", 3)
 
 	mut := c.mutatesRecv()
-	exemptMut := map[string]string{
-		"(*go.uber.org/zap/zapcore.lazyWithCore).initOnce": "publishes the derived core once under sync.Once (decided by R7.6 / C09 R9.2)",
+	exemptMut := map[string]string{}
+	if w := lazyOnceWrapper(c); w != nil {
+		exemptMut[w.String()] = "publishes the derived core once under sync.Once (decided by R7.6 / C09 R9.2)"
 	}
 	var list []deriveM
 	for _, n := range []string{"With", "WithLazy", "Named", "WithOptions", "Sugar"} {
@@ -388,37 +389,72 @@ func c7Names(c *Ctx) {
 	}
 }
 
+// lazyOnceWrapper: the method of lazyWithCore that runs the one-time evaluation (it calls Do on the embedded Once).
+func lazyOnceWrapper(c *Ctx) *ssa.Function {
+	lz := c.Named(CorePath, "lazyWithCore")
+	if lz == nil {
+		return nil
+	}
+	var w *ssa.Function
+	c.EachRootFunc(func(fn *ssa.Function) {
+		if rn := RecvNamed(fn); rn == nil || rn.Obj() != lz.Obj() || fn.Parent() != nil {
+			return
+		}
+		for _, cl := range Calls(fn) {
+			if IsCallTo(cl, "(*sync.Once).Do") {
+				w = fn
+			}
+		}
+	})
+	return w
+}
+
 func c7Lazy(c *Ctx) {
 	lz := c.Named(CorePath, "lazyWithCore")
-	init := c.Method(CorePath, "lazyWithCore", "initOnce")
-	if !c.Anchor("R7.6", "zapcore.lazyWithCore.initOnce", lz != nil && init != nil) {
+	init := lazyOnceWrapper(c)
+	if !c.Anchor("R7.6", "zapcore.lazyWithCore and its method that runs the sync.Once", lz != nil && init != nil) {
 		return
+	}
+	// the field the Once closure publishes
+	pubField := ""
+	for _, body := range WithClosures(init) {
+		for _, st := range FieldStoresOf(body, lz) {
+			pubField = st.Field
+		}
 	}
 	for _, m := range []string{"With", "Check", "Write", "Sync"} {
 		fn := c.Method(CorePath, "lazyWithCore", m)
 		if !c.Anchor("R7.6", "zapcore.lazyWithCore."+m, fn != nil) {
 			continue
 		}
-		var ic ssa.Instruction
-		for _, cl := range CallsDeep(fn) {
-			if StaticCallee(cl) == init {
-				ic = cl
-			}
-		}
-		// every delegation to the derived core is preceded by initOnce, and initOnce is on every path
-		okAll := ic != nil && mustPass(fn, func(i ssa.Instruction) bool { return i == ic })
-		okDeleg := true
-		for _, cl := range Calls(fn) {
-			if cl.Common().IsInvoke() && Desc(Args(cl)[0]) == fn.Params[0].Name()+".core" {
-				okDeleg = okDeleg && ic != nil && Dominates(ic, cl)
-			} else if cl.Common().IsInvoke() && strings.HasPrefix(Desc(Args(cl)[0]), fn.Params[0].Name()+".") && m != "Enabled" {
-				// delegating to anything else (e.g. the original core) would bypass the lazy fields
-				if CalleeFunc(cl) != nil && CalleeFunc(cl).Name() == m {
-					okDeleg = false
+		// by path exploration (helpers inline): the Once runs before the one delegation, which goes to the derived core
+		seqs, trunc := ConcPaths(fn, ConcCfg{
+			Event: func(in ssa.Instruction, st *ConcState) string {
+				switch x := in.(type) {
+				case *ssa.Call:
+					if IsCallTo(x, "(*sync.Once).Do") {
+						return "once"
+					}
+					if x.Call.IsInvoke() && x.Call.Method.Name() == m {
+						d := st.Desc(x.Call.Value)
+						if i := strings.LastIndex(d, "."); i >= 0 && d[i+1:] == pubField {
+							return "deleg-derived"
+						}
+						return "deleg:" + d
+					}
+				case *ssa.Return:
+					return "ret"
 				}
+				return ""
+			},
+		})
+		var bad []string
+		for _, sq := range seqs {
+			if sq != "once ; deleg-derived ; ret" {
+				bad = append(bad, sq)
 			}
 		}
-		c.Check(okAll && okDeleg, "R7.6", fn.String(), "init-before-delegation", fn.Pos(), "%s forces the one-time evaluation on every path and delegates only to the derived core (a bypass gives parent and child different views of a mutable field)", m)
+		c.Check(!trunc && len(seqs) > 0 && len(bad) == 0 && pubField != "", "R7.6", fn.String(), "init-before-delegation", fn.Pos(), "%s forces the one-time evaluation on every path and then delegates, once, to the derived core it published (a bypass gives parent and child different views of a mutable field); offending paths: %v", m, bad)
 	}
 	// closure stores originalCore.With(fields) into core, exactly once
 	n := 0
